@@ -340,7 +340,7 @@ Definition in_domain (c : call) : bool :=
       test_transitive (c_test c) && (negb (c_from_end c) || test_symmetric (c_test c))
   | FMember => is_list (c_seq c) && not_test_not (c_test c)
   | FMemberIf => is_list (c_seq c)
-  | FAssoc | FRassoc => is_list (c_seq c) && test_symmetric (c_test c)    (* KF test(key, item) *)
+  | FAssoc | FRassoc => is_list (c_seq c) && not_test_not (c_test c)     (* KF :test-not *)
   | FAssocIf | FAssocIfNot | FRassocIf => is_list (c_seq c)
   | FSearch => bounds2_ok c && not_test_not (c_test c)
   | FMismatch =>
